@@ -61,6 +61,8 @@ for _c, _b in (("AbstractStrategy", None), ("VerificationStrategy", "AbstractStr
                ("EmptyStrategy", "VerificationStrategy"), ("StrategyFactory", None)):
     if _c not in REG.classes:
         klass(FST, _c, bases=[_b] if _b else [], fields={})
+    elif _b and _b not in REG.classes[_c].bases:
+        REG.classes[_c].bases.append(_b)
 _SKEYS = {
     "AbstractStrategy": _SD + ['"ignore_parent"', '"inferrable"', '"possibly_empty"', '"workable"'],
     "VerificationStrategy": _SD + ['"ignore_parent"'],
